@@ -242,7 +242,11 @@ def _c14_property(r):
     """"Documents carrying an id are refused" - on the implementation's own answer"""
     if r["kind"] == "patchrt" and r["case"].get("label") == "doc/with-id" and isinstance(r["impl"], dict) and r["impl"].get("class") == "ok":
         return "patchrt/doc-with-id/accepted"
-    if r["kind"] == "patchrt" and r["case"].get("label") in ("doc/valid", "doc/names-needing-escapes") and isinstance(r["impl"], dict):
+    if r["kind"] == "patchrt" and r["case"].get("label") in ("doc/valid", "doc/names-needing-escapes", "doc/names-beginning-like-protected") \
+            and isinstance(r["impl"], dict) and r["impl"].get("class") == "ok" and any(v != "ok" for v in (r["impl"].get("validate") or [])):
+        # "every patch produced by the patch constructors from valid input passes validation"
+        return "patchrt/produced-patch-fails-validation"
+    if r["kind"] == "patchrt" and r["case"].get("label") in ("doc/valid", "doc/names-needing-escapes", "doc/names-beginning-like-protected") and isinstance(r["impl"], dict):
         # "converting a document into patches and applying those patches to an empty document reproduces the document"
         from check import canon
         try:
